@@ -54,11 +54,13 @@ func (nothingResolver) FindMessageByURL(u string) (protoreflect.MessageType, err
 	}
 	return nothingResolver{}.FindMessageByName(protoreflect.FullName(u))
 }
-func (nothingResolver) FindExtensionByName(protoreflect.FullName) (protoreflect.ExtensionType, error) {
-	return nil, protoregistry.NotFound
+
+// (extensions are not "a method's request or response type": the resolver knows the schema's extension fields)
+func (nothingResolver) FindExtensionByName(n protoreflect.FullName) (protoreflect.ExtensionType, error) {
+	return harnessTypes{}.FindExtensionByName(n)
 }
-func (nothingResolver) FindExtensionByNumber(protoreflect.FullName, protoreflect.FieldNumber) (protoreflect.ExtensionType, error) {
-	return nil, protoregistry.NotFound
+func (nothingResolver) FindExtensionByNumber(m protoreflect.FullName, f protoreflect.FieldNumber) (protoreflect.ExtensionType, error) {
+	return harnessTypes{}.FindExtensionByNumber(m, f)
 }
 
 // schemaProto parses the schema text and derives message Reply from it: a copy of Msg under another name with two
@@ -159,7 +161,7 @@ func schemaServiceFor(handler http.Handler, opts []vanguard.ServiceOption) *vang
 		if err := uo.Unmarshal(raw, &back); err != nil {
 			panic(err)
 		}
-		fd, err := protodesc.NewFile(back.File[0], protoregistry.GlobalFiles)
+		fd, err := protodesc.NewFile(back.File[0], schemaDeps{})
 		if err != nil {
 			panic(err)
 		}
@@ -178,6 +180,7 @@ func schemaServiceFor(handler http.Handler, opts []vanguard.ServiceOption) *vang
 					m.Field = kept
 				}
 			}
+			registerExtGlobally()
 			fd, err := protodesc.NewFile(old, protoregistry.GlobalFiles)
 			if err != nil {
 				panic(err)
@@ -192,13 +195,14 @@ func schemaServiceFor(handler http.Handler, opts []vanguard.ServiceOption) *vang
 				}
 			}
 		})
-		fresh, err := protodesc.NewFile(schemaProto(), protoregistry.GlobalFiles)
+		fresh, err := protodesc.NewFile(schemaProto(), schemaDeps{})
 		if err != nil {
 			panic(err)
 		}
 		return vanguard.NewServiceWithSchema(fresh.Services().ByName("Svc"), handler, opts...)
 	case "global":
 		globalOnce.Do(func() {
+			registerExtGlobally()
 			fd := verifSchema()
 			if err := protoregistry.GlobalFiles.RegisterFile(fd); err != nil {
 				panic(err)
